@@ -31,6 +31,19 @@ Theorem C02_registry_complete :
   (forall id, ~ In id spec_command_ids -> find_layout layouts id = None).
 Proof. exact registry_complete. Qed.
 
+(* ... and where the UDH indicator applies is pinned by the specification, not taken from the code: the table's flags
+   l_has_esm / l_replace are observed from what ShortMessage.Prepare does for each type; for every registered type they are what
+   the syntax tables say — the indicator governs the short message exactly of submit_sm, deliver_sm, submit_multi (ids 4, 5, 33:
+   esm_class and short_message both present), data_coding is absent exactly in replace_sm (id 7). *)
+Theorem C02_udhi_applies : forall lay, In lay layouts ->
+  (existsb is_short (l_fields lay) && l_has_esm lay) = spec_has_udhi (l_id lay) /\
+  l_replace lay = spec_is_replace (l_id lay) /\
+  existsb is_short (l_fields lay) = (match find_op0 smpp5_ops (l_id lay) with Some o => op_has_short o | None => false end).
+Proof. exact udhi_applies. Qed.
+Theorem C02_udhi_operations :
+  filter spec_has_udhi spec_command_ids = [4; 5; 33] /\ filter spec_is_replace spec_command_ids = [7].
+Proof. exact spec_udhi_ops. Qed.
+
 (* 2. Octets: for EVERY layout and every well-formed value, the frame Marshal writes is the
    specification's layout of that value: 16-octet big-endian header with command_length =
    frame size and the type's command_id, then each parameter (NUL-terminated strings, one-octet
@@ -158,6 +171,8 @@ Proof. eexists. split; vm_compute; reflexivity. Qed.
 Print Assumptions C02_layouts_match.
 Print Assumptions C02_names_match.
 Print Assumptions C02_registry_complete.
+Print Assumptions C02_udhi_applies.
+Print Assumptions C02_udhi_operations.
 Print Assumptions C02_marshal_is_spec.
 Print Assumptions C02_spec_frame_decodes.
 Print Assumptions C02_tlvs_any_order.
